@@ -319,6 +319,10 @@ func runC20(h *Harness) {
 		} else {
 			n = h.NewNodeOn(fmt.Sprintf("n1c%d", c), cfg, wd)
 		}
+		for _, l := range locs {
+			l.State = oGood // configured URLs must be reachable for provisioning to be expected to succeed
+		}
+		h.Disk.OsFault = nil
 		if err := h.Provision(n); err != nil {
 			cls := "first"
 			if c > 0 {
